@@ -7,8 +7,8 @@ EXPLANATION = ("Static rules over quinn-proto/quinn MIR: (a) State::Drained is s
                "(b) every transition into a closed state reaches close_common (stops all timers) and arms the Close timer unless drained; timers are not re-armed on "
                "closed connections; (c) under close == true the congestion/pacing gate of poll_transmit is unreachable (a local close is announced whatever the window); "
                "(d) who-may-write Connection.error, reported once via take(); pre-1-RTT application close is masked as APPLICATION_ERROR; (e) Endpoint::handle_event(Drained) "
-               "removes the slab entry and ConnectionIndex::remove touches every routing table; the reset-token route is removed under the address it was registered with; "
-               "(f) idle timer arm kills with TimedOut; reset_idle_timeout uses max(timeout, 3*pto); (g) async driver termination shape. Timing bounds are NOT decided.")
+               "removes the slab entry and ConnectionIndex::remove touches every routing table; the reset-token route is removed under the address it was registered with; every CID routed by new_cid is recorded in ConnectionMeta.loc_cids (the set remove() purges); "
+               "(f) idle timer arm kills with TimedOut; reset_idle_timeout uses max(timeout, 3*pto); (g) async driver termination shape; Drop for State sends its fallback Drained only over !inner.is_drained(). Timing bounds are NOT decided.")
 RULE = "rule instances = (rule, site) pairs over MIR constructions / call sites / branches; non-trivial = bound to at least one real site"
 CONN = 'connection::Connection'
 
@@ -504,6 +504,146 @@ def rule_d(ctx):
     ctx.check(not why, 'd', 'early_app_close_test', pt, pt.where(), 'space == Data || reason.is_transport_layer() -> verbatim reason, else masked', 'the transport-layer test for early close frames is gone or has the wrong polarity: ' + '; '.join(why))
 
 
+CID = 'ConnectionId'
+
+
+def place_type(F, body, place):
+    """type string of a MIR place (local + deref / variant / field projections), or None when it cannot be resolved"""
+    ty = body.local_ty(place[0])
+    var = None
+    for e in place[1]:
+        if ty is None:
+            return None
+        if e == '*':
+            ty = ty.lstrip('&').strip()
+            ty = ty[4:] if ty.startswith('mut ') else ty
+        elif isinstance(e, list) and e[0] == 'v':
+            var = e[1]
+        elif isinstance(e, list) and e[0] == 'f':
+            nxt = None
+            if ty.split('<')[0].endswith('option::Option') and var == 'Some' and e[1] == '0':
+                nxt = ty[ty.index('<') + 1:-1]
+            else:
+                try:
+                    a = F.adt(e[2]) if e[2] else None
+                except CheckBroken:
+                    a = None
+                for v in (a['variants'] if a else []):
+                    if var is None or v['name'] == var:
+                        nxt = next((f[1] for f in v['fields'] if f[0] == e[1]), nxt)
+            ty, var = nxt, None
+        else:
+            return None
+    return ty
+
+
+def carries(d, x, through_calls):
+    """descriptor d is the value x (a descriptor, or a predicate over descriptors) or holds it: x itself, a phi alternative, an aggregate operand, a projection of a holder;
+    with through_calls='accessor' also a one-argument call on a holder (`side_args.pref_addr_cid()`), with 'any' any call
+    with a holder among its arguments (`.copied()`, `.map(..)`, `.unwrap()`)"""
+    if not isinstance(d, tuple) or not d:
+        return False
+    if x(d) if callable(x) else d == x:
+        return True
+    if d[0] == 'phi':
+        return any(carries(a, x, through_calls) for a in d[1])
+    if d[0] == 'agg':
+        return any(carries(a, x, through_calls) for a in d[3])
+    if d[0] in ('field', 'variant'):
+        return carries(d[1], x, through_calls)
+    if d[0] == 'call' and through_calls and (through_calls == 'any' or len(d[3]) == 1):
+        return any(carries(a, x, through_calls) for a in d[3])
+    return False
+
+
+def cid_free_edges(F, body, x):
+    """branch edges on which a CID-carrying value derived from parameter descriptor x is known to carry no ConnectionId:
+    the None edge of a test (match / is_some / is_none) of exactly an Option<..ConnectionId..> projected from x, and the
+    edges of a match on an enum derived from x that select a variant without any ConnectionId-typed field"""
+    cut = set()
+    for br in branches(F, body):
+        inner, neg = peel_not(br.desc)
+        if inner[0] == 'discr' and carries(inner[1], x, 'accessor'):
+            st = [s for s in body.blocks[br.bb]['s'] if s[0] == '=' and s[2][0] == 'discr']
+            ty = place_type(F, body, st[-1][2][1]) if st else None
+            if ty is None or CID not in ty:
+                continue
+            if ty.split('<')[0].endswith('option::Option'):
+                cut.add((br.bb, br.target(0)))
+                continue
+            try:
+                a = F.adt(ty.split('<')[0])
+            except CheckBroken:
+                continue
+            for v in a['variants']:
+                if not any(CID in f[1] for f in v['fields']) and br.target(int(v['discr'])) not in [br.target(int(w['discr'])) for w in a['variants'] if any(CID in f[1] for f in w['fields'])]:
+                    cut.add((br.bb, br.target(int(v['discr']))))
+        elif inner[0] == 'call' and inner[1] in ('Option::is_some', 'Option::is_none') and len(inner[3]) == 1 and carries(inner[3][0], x, 'accessor') and len(inner) > 4:
+            cs = [c for c in body.calls() if c.bb == inner[4]]
+            if cs and cs[0].ga and all(CID in g for g in cs[0].ga):
+                some_is_true = (inner[1] == 'Option::is_some') != neg
+                cut.add((br.bb, br.target(0 if some_is_true else 1)))
+    return cut
+
+
+def routed_cids_recorded(ctx):
+    """e/routed_cid_*: every connection ID entered into the routing map for a connection (Endpoint::new_cid) is recorded
+    in that connection's ConnectionMeta.loc_cids, the set ConnectionIndex::remove purges when the connection is forgotten.
+    Producer side: the result of every new_cid call is handed, as the value itself (possibly wrapped in Some / a struct
+    literal), to an insertion into `..loc_cids` or to an argument of add_connection.  Consumer side (add_connection): for
+    every parameter through which such a CID arrives, no path to a normal return avoids an insertion of (a value carried
+    by) that parameter into the map stored as ConnectionMeta.loc_cids - except over edges on which the parameter is known
+    to carry no CID (None / a variant without ConnectionId)."""
+    F = ctx.facts
+    ac = ctx.pfn('Endpoint::add_connection')
+    nc = ctx.pfn('Endpoint::new_cid')
+    prods = [c for c in F.callers_of('Endpoint::new_cid', crate='quinn_proto') if c.bb in c.body.live_blocks() and F.root_of(c.body).id != ac.id]
+    via = {}
+    for p in prods:
+        b = p.body
+        site = lambda n, p=p: n[0] == 'call' and len(n) > 4 and n[4] == p.bb and n[1] == short(p.f)
+        sinks = []
+        for c in b.calls():
+            if c.bb not in b.live_blocks() or c.bb == p.bb:
+                continue
+            ads = [arg_desc(F, c, i) for i in range(len(c.args))]
+            if c.is_('Endpoint::add_connection'):
+                for i, a in enumerate(ads):
+                    if carries(a, site, None):
+                        via.setdefault(i, []).append(p)
+                        sinks.append(c)
+            elif ads and D.has_field(ads[0], 'loc_cids') and any(carries(a, site, None) for a in ads[1:]):
+                sinks.append(c)
+        ctx.check(bool(sinks), 'e', 'routed_cid_recorded_for_removal', F.root_of(b), p.where(), 'the CID routed by new_cid is handed to %s' % sorted({short(c.f) for c in sinks}),
+                  'a CID entered into the routing map by new_cid is neither inserted into ConnectionMeta.loc_cids nor passed on to add_connection: ConnectionIndex::remove will never forget it')
+    ctx.floor('e', 'routed_cid_producers', len(prods), 2)
+    metas = [c for c in constructions(F, 'endpoint::ConnectionMeta', None, crate='quinn_proto') if F.root_of(c.body).id == ac.id and c.body.id == ac.id]
+    if not ctx.check(bool(metas) and bool(via), 'e', 'routed_cid_record_anchor', ac, ac.where(), 'add_connection builds the ConnectionMeta; CIDs arrive through argument(s) %s' % sorted(via),
+                     'cannot relate the CIDs produced by new_cid to the ConnectionMeta built in add_connection (%d constructions, CID-carrying arguments %s)' % (len(metas), sorted(via))):
+        return
+    d = describer(F, ac)
+    maps = [d.operand(m.field_op('loc_cids'), m.bb, m.idx) for m in metas if m.field_op('loc_cids') is not None]
+    rets = set(ac.return_blocks())
+    for i in sorted(via):
+        l = i + 1
+        x = ('param', l, ac.local_name(l))
+        plain = CID in ac.local_ty(l).split('<')[0]
+        recs = set()
+        for c in ac.calls():
+            if c.bb not in ac.live_blocks() or not c.args or is_noise(c):
+                continue
+            ads = [arg_desc(F, c, k) for k in range(len(c.args))]
+            if (ads[0] in maps or D.has_field(ads[0], 'loc_cids')) and any(carries(a, x, None if plain else 'any') for a in ads[1:]):
+                recs.add(c.bb)
+        whole = bool(maps) and all(any(n == x for n in walk(m)) for m in maps)    # map built from the value (from_iter / from([..]))
+        cut = set() if plain else cid_free_edges(F, ac, x)
+        open_ = ac.reachable_from(0, avoid=recs, avoid_edges=cut) & rets
+        ctx.check(bool(maps) and (whole or (bool(recs) and not open_)), 'e', 'routed_cid_kept_in_loc_cids', ac, ac.where(),
+                  'the CID arriving in `%s` is inserted into ConnectionMeta.loc_cids on every path on which it exists (%d insertion site(s))' % (x[2], len(recs)),
+                  'a CID that new_cid routed to the connection arrives in add_connection through `%s` but is not recorded in ConnectionMeta.loc_cids on every path on which it exists: '
+                  'ConnectionIndex::remove never purges it, so it keeps routing to the forgotten (later reused) handle' % x[2])
+
+
 def rule_e(ctx):
     F = ctx.facts
     he = ctx.pfn('Endpoint::handle_event')
@@ -539,6 +679,7 @@ def rule_e(ctx):
     for c in rem.calls_to('ResetTokenTable::remove'):
         a1 = arg_desc(F, c, 1)
         ctx.check(D.has_field(a1, 'reset_token'), 'e', 'drain_removes_registered_reset_route', rem, c.where(), 'remove(conn.reset_token)', 'remove() does not purge the registered reset-token route')
+    routed_cids_recorded(ctx)
 
 
 def rule_f(ctx):
@@ -589,6 +730,15 @@ def rule_g(ctx):
     ctx.check(bool(brs), 'g', 'driver_completes_on_drained', dp, dp.where(), 'is_drained() test', 'ConnectionDriver no longer tests is_drained()')
     st = ctx.qfn('<connection::State as Drop>::drop')
     ctx.check(may_reach(F, st, ['EndpointEvent::drained'], 1), 'g', 'state_drop_notifies_endpoint', st, st.where(), 'Drop for State sends EndpointEvent::drained()', 'dropping the connection state no longer notifies the endpoint')
+    # ... exactly once: the fallback notification is sent only if the proto connection has not emitted its own final Drained
+    # (a second Drained(handle) would make the endpoint forget whichever connection has reused the slot): every site that
+    # may produce EndpointEvent::drained() is reachable only over the FALSE edge of a test of exactly self.inner.is_drained()
+    tests = [(br, f, t) for br, f, t in call_tests(F, st, 'Connection::is_drained', 'inner') if f != t]
+    sites = may_sites(F, st, ['EndpointEvent::drained'], 1)
+    free = st.reachable_from(0, avoid_edges={(br.bb, f) for br, f, t in tests})
+    ctx.check(bool(tests) and bool(sites) and not (sites & free), 'g', 'state_drop_notifies_only_if_not_drained', st, st.where(), 'EndpointEvent::drained() only over !self.inner.is_drained()',
+              'Drop for State can send EndpointEvent::drained() although the connection already emitted its final Drained (no test of exactly inner.is_drained() whose false edge '
+              'is the only way to the send): the duplicate notification makes the endpoint forget the connection that reused the handle')
     he = ctx.qfn('endpoint::State::handle_events') if F.try_fn('endpoint::State::handle_events', 'quinn') else None
     if he is not None:
         ok = any(D.has_call(br.desc, 'EndpointEvent::is_drained') for br in branches(F, he)) and bool(he.calls_to('HashMap::remove'))
